@@ -120,8 +120,8 @@ fn unhexs(s: &str) -> String {
 
 fn copts_text(o: &CfbOpts, lseed: u64) -> String {
     format!(
-        "ss={},sh={},msh={},free={},unused={},dsh={},minfat={},fill={},ls={}",
-        o.sector_size, o.shuffle as u8, o.mini_shuffle as u8, o.extra_free, o.unused_dirs, o.dir_shuffle as u8, o.min_fat_sectors, o.fill, lseed
+        "ss={},sh={},msh={},free={},unused={},dsh={},minfat={},fill={},ng={},ls={}",
+        o.sector_size, o.shuffle as u8, o.mini_shuffle as u8, o.extra_free, o.unused_dirs, o.dir_shuffle as u8, o.min_fat_sectors, o.fill, o.name_garbage as u8, lseed
     )
 }
 
@@ -140,6 +140,7 @@ fn copts_parse(s: &str) -> (CfbOpts, u64) {
             "dsh" => o.dir_shuffle = n != 0,
             "minfat" => o.min_fat_sectors = n as usize,
             "fill" => o.fill = n as u8,
+            "ng" => o.name_garbage = n != 0,
             "ls" => ls = n,
             x => panic!("unknown container knob {x}"),
         }
@@ -250,6 +251,9 @@ fn run_ooxml(text: &str, drv: &mut Driver, extras: bool) -> Outcome {
     out.count(format!("ooxml:xlsb={ib}"));
     if opts.min_fat_sectors > 109 {
         out.count("ooxml:difat");
+    }
+    if opts.name_garbage {
+        out.count("ooxml:stale-name-padding");
     }
     let cls = format!("{ver}:{}", if has_mini { "mini" } else { "nomini" });
     for (rd, tag) in [("xlsx", &ix), ("xlsb", &ib)] {
@@ -568,6 +572,9 @@ fn run_xls(text: &str, drv: &mut Driver, extras: bool) -> Outcome {
     let c = cls.clone().map(|c| format!("{c}:{pos}")).unwrap_or("none".into());
     out.count(format!("xls:filepass={c}{}", if scr && cls.is_some() { ":scrambled" } else { "" }));
     out.count(format!("xls:container=v{}", if opts.sector_size == 512 { 3 } else { 4 }));
+    if opts.name_garbage {
+        out.count("xls:stale-name-padding");
+    }
     judge_xls(&mut out, &bytes, &wb, drv, Some(cls.is_some()), &cls.unwrap_or("none".into()), extras);
     out.nontrivial = true;
     out
@@ -1319,6 +1326,12 @@ fn corpus() -> Vec<String> {
         format!("ooxml;{PLAIN};{enc}:r4095.1/{info}:r248.2"),
         format!("ooxml;{PLAIN};{enc}:r4096.1/{info}:r248.2"),
         format!("ooxml;{PLAIN};{enc}:r0.1"),
+        // seeded change C20-m4: directory entries whose 64-byte name field holds stale characters behind the
+        // terminating NUL (recycled entries); the name ends at the first NUL
+        format!("ooxml;{PLAIN},ng=1;{enc}:r100.1/{info}:r248.2"),
+        format!("ooxml;{PLAIN4},ng=1;{enc}:r5000.1/{info}:r248.2"),
+        format!("xls;{PLAIN},ng=1;b0;47:00001234abcd;_;scr=0"),
+        format!("xls;{PLAIN},ng=1;b7;_;_;scr=0;name=Book"),
         // compound files that are not encrypted packages
         format!("ooxml;{PLAIN};{}:r100.1/{info}:r248.2", hexs("encryptedpackage")),
         format!("ooxml;{PLAIN};_"),
@@ -1355,7 +1368,7 @@ fn main() {
     let mut drv = Driver::spawn(&args.driver);
     let mut rep = Report::new(
         "C20",
-        "encrypted OOXML packages (compound files from cfbw: v3/v4, shuffled/fragmented, free sectors, DIFAT, EncryptedPackage of \
+        "encrypted OOXML packages (compound files from cfbw: v3/v4, shuffled/fragmented, free sectors, DIFAT, stale characters behind the NUL of directory names, EncryptedPackage of \
          0..70000 bytes in the mini stream or in regular sectors, EncryptionInfo standard/agile/extensible headers + arbitrary bytes, \
          DataSpaces streams; near-miss names as negatives; one in ten truncated or with one byte overwritten: impl vs model only) opened with Xlsx::new and Xlsb::new; BIFF8 workbooks from xlsw with a \
          FILEPASS record (wEncryptionType 0 / 1 RC4 / 1 CryptoAPI / other / truncated) first after BOF, after other globals records, \
